@@ -28,6 +28,8 @@ OBLIGATIONS = {
                ('o15_3_parse_internal_key_10', 'qt'), ('o15_3_parse_internal_key_8', 'qt'), ('o15_3_parse_block_handle_3', 'qt')]),
     'O12.2': ('byte-exact round trip of one record (0, 1, 2 symbolic bytes) through the real writer and reader, real CRC',
               [('o12_2_log_roundtrip_len0', 'qt'), ('o12_2_log_roundtrip_len1', 'qt'), ('o12_2_log_roundtrip_len2', 't')]),
+    'O12.6': ('one log fragment of every type (Full / First / Middle / Last) with 0..2 payload bytes survives serialise + parse with its type and payload (real CRC)',
+              [('o12_6_fragment_roundtrip_len0', 'qt'), ('o12_6_fragment_roundtrip_len1', 'qt'), ('o12_6_fragment_roundtrip_len2', 't')]),
     'O15.2': ('a one-record log with one byte altered (crc / length / type / payload position) never yields a record that was not appended',
               [('o15_2_log_corrupt_crc0', 'qt'), ('o15_2_log_corrupt_payload7', 'qt'), ('o15_2_log_corrupt_type6', 'qt'), ('o15_2_log_corrupt_len4', 't'), ('o15_2_log_corrupt_payload8', 't')]),
 }
